@@ -1,10 +1,12 @@
 PROPERTY = "C06"
 LEVEL = "proof"
-LEAN_MODULES = ["CifModel.Props.C06", "CifModel.Props.C04", "CifModel.Model.StoreSchema", "CifModel.Props.ReviewC06"]
+LEAN_MODULES = ["CifModel.Props.C06", "CifModel.Props.C04", "CifModel.Model.StoreSchema", "CifModel.Props.ReviewC06", "CifModel.Lemmas.StoreSpecIter"]
 REQUIRED = ["CifModel.C06_delivers_each_once", "CifModel.C06_packet_complete", "CifModel.C06_open", "CifModel.C06_caller_packet", "CifModel.C06_open_wf", "CifModel.C06_open_refused",
             "CifModel.C06_state_machine", "CifModel.C06_update_only_named_items", "CifModel.C06_close_commits", "CifModel.C06_abort_reverts",
             "CifModel.C06_frees_cif", "CifModel.C06_packet_is_stored", "CifModel.C06_open_refines", "CifModel.C06_refines_calls",
-            "CifModel.C06_close_abort_refine", "CifModel.C06_documented_codes", "CifModel.C04_wok_step", "CifModel.C04_iterator_tied", "CifModel.C04_second_get_packets_refused", "CifModel.C04_inv_reachable", "CifModel.Store.schema_sql_link", "CifModel.Store.C05_paths_link"]
+            "CifModel.C06_close_abort_refine", "CifModel.C06_documented_codes", "CifModel.C06_pending_at_open", "CifModel.C06_next_in_history",
+            "CifModel.C06_pending_kept", "CifModel.C06_delivers_in_history", "CifModel.C06_delivers_in_any_history", "CifModel.C06_session_in_history", "CifModel.C04_refines", "CifModel.C04_refines_hist",
+            "CifModel.Store.step_other", "CifModel.C04_wok_step", "CifModel.C04_iterator_tied", "CifModel.C04_second_get_packets_refused", "CifModel.C04_inv_reachable", "CifModel.Store.schema_sql_link", "CifModel.Store.C05_paths_link"]
 GEN = ["ErrCodes", "Schema"]
 FAMILIES = ["iter"]
 EXHAUSTIVE = True
@@ -19,12 +21,17 @@ TRUSTED_BASE = [
 ASSUMPTIONS = ["Iter.WF (the pending rows can be delivered, positive row numbers) is a hypothesis of the call-sequence theorems; C06_open_wf proves it "
                "for every iterator opened in a state satisfying the store invariant, i.e. (C04_inv_reachable) in every reachable state"]
 PARTIAL = [
-    "the history-level statements against the documented model — C06_open_refines, C06_refines_calls (every call sequence: code and packet "
-    "of every call, final content, final position), C06_close_abort_refine, C06_packet_is_stored (the packet holds exactly the STORED values) — "
-    "are about the API functions on a Store and take as hypotheses that the store is Good, the iterator tied (IterOk) and inside its "
-    "transaction: C04_wok_step / C04_iterator_tied supply exactly these for every live iterator of a history that keeps to the contract "
-    "(Model/StoreContract inContract: while the iterator is open only its own calls — and a refused further get_packets — work on its CIF); "
-    "they are NOT yet cases of specStep / C04_refines_hist over worlds (the world-level abstraction keeps the iterator table concrete)",
+    "the six iterator calls are cases of specStep / C04_refines / C04_refines_hist over whole histories (world-level abstraction: the iterator "
+    "table holds abstract iterators AIter): in every in-contract history (Model/StoreContract inContract: while the iterator is open only its own "
+    "calls — and a refused further get_packets — work on its CIF; update packets are maps) started from a WOk world the calls do to the documented "
+    "model exactly what specItOpen / specItNext / specItUpdate / specItRemove / close (content stays) / abort (content := AIter.start) say. "
+    "On top: C06_pending_at_open, C06_next_in_history, C06_pending_kept, C06_delivers_in_history, C06_session_in_history — in ANY in-contract "
+    "history (calls on other CIFs, other iterators' sessions, refused get_packets in between) the packets an iterator delivers are a prefix of the "
+    "loop's packets in the documented model at its creation, each once, in order; CIF_FINISHED exactly when all were delivered. C06_delivers_in_any_history has no "
+    "restriction on the history (a close / abort of the iterator inside it ends the deliveries: step_dead); C06_delivers_in_history / "
+    "C06_session_in_history additionally say what is still pending afterwards and therefore consider a segment that does not close or abort "
+    "the iterator; the store-level statements C06_open_refines, C06_refines_calls, C06_close_abort_refine, C06_packet_is_stored remain "
+    "(they are what the world-level cases are composed from)",
     "exactly-once delivery rests on distinct row numbers per packet: IterOk.keys (item_value's primary key, part of Inv) and IterOk.sorted",
     "update packets with a repeated key are excluded (Call.keysOk: a packet is a map); an update naming an item of another loop is "
     "CIF_WRONG_LOOP and changes nothing (ROLLBACK_TO)",
